@@ -150,36 +150,40 @@ Inner(i) == {sh \in Shapes(i) : ~(Len(sh) = 1 /\ sh[1].dop.k = "demfield")}
 PickC1 == \/ \E a \in Shapes(1) : Pick(D(<<SID>> \o a))
           \/ Pick(D(<<SID, TabKey("k1", 3, Tab1), TabStruct("t1", 1, Tab1, "k1")>>))
 PickC2 == \E a \in Inner(1), b \in Shapes(2) : Pick(D(<<SID>> \o a \o b))
-\* a field that reads to the end of the PDU must not start in front of (or inside) an object placed earlier: with three
-\* shapes the middle one is not positioned explicitly when a greedy field is around (it could jump backwards)
-Greedy(ps) == \E i \in 1..Len(ps) : ps[i].dop.k \in {"eopfield", "demfield"}
+\* an object that reads up to the end of the PDU (field, unterminated text) must not start in front of (or inside) an object
+\* placed earlier: with three shapes the middle one is not positioned explicitly (it could jump backwards)
 \* shapes with large value alphabets (environment data, tables, records of trouble codes) take part in compositions of two
-HeavyDop(d) == \/ d.k \in {"envdesc", "table"}
+HeavyDop(d) == \/ d.k \in {"envdesc", "table", "dtc"}
                \/ (d.k \in {"eopfield", "dlfield", "demfield", "sfield"} /\ d.st.k = "struct" /\
                    \E j \in 1..Len(d.st.ps) : d.st.ps[j].dop.k \in {"envdesc", "dtc"})
 Heavy(sh) == \E j \in 1..Len(sh) : HeavyDop(sh[j].dop)
-PickC3 == \E a \in {x \in Inner(1) : ~Heavy(x)}, b \in {x \in Inner(2) : ~Heavy(x)}, c \in {x \in Shapes(3) : ~Heavy(x)} :
-             ~(Greedy(a \o b \o c) /\ \E i \in 1..Len(b) : b[i].bp >= 0) /\ Pick(D(<<SID>> \o a \o b \o c))
-
 \* quick: as first of two shapes only those that change the context of what follows (origin, cursor, keys, claims)
 Ctx(i) == {sh \in Inner(i) : \/ sh[1].dop.k \in {"struct", "sfield", "dlfield", "demfield", "mux"}
                              \/ sh[1].k \in {"LENGTH-KEY", "MATCHING-REQUEST-PARAM", "NRC-CONST", "RESERVED"}
                              \/ sh[1].bp >= 0}
+\* (the volume of cases grows with the cube: first a shape that changes the context, then a plain one, then any light one)
+Plain(i) == {<<Value(Nm("p", i), -1, -1, Simple(U8))>>, <<Const(Nm("c", i), -1, -1, Std("uint", "NONE", 16, FALSE), IntV(4660))>>,
+             <<Reserved(Nm("r", i), -1, 4, 4)>>, <<PhysConst(Nm("c", i), -1, Simple(U8), IntV(7))>>}
+PickC3 == \E a \in {x \in Ctx(1) : ~Heavy(x)}, b \in Plain(2), c \in {x \in Shapes(3) : ~Heavy(x)} : Pick(D(<<SID>> \o a \o b \o c))
+
 PickC2Quick == \E a \in Ctx(1), b \in Shapes(2) : Pick(D(<<SID>> \o a \o b))
 NextQuick == \/ PickA({1, 4, 7, 8, 12, 16, 31, 32, 64}, {-1, 3, 4, 7}, {-1, 2}) \/ PickA2 \/ PickB \/ PickC1 \/ PickC2
              \/ Evaluate
 NextThorough == \/ PickA({1, 2, 3, 4, 5, 7, 8, 9, 12, 15, 16, 17, 24, 30, 31, 32, 33, 48, 63, 64}, {-1, 0, 1, 2, 3, 4, 5, 6, 7}, {-1, 0, 2})
-                \/ PickA2 \/ PickB \/ PickC1 \/ PickC2 \/ PickC3 \/ Evaluate
+                \/ PickA2 \/ PickB \/ PickC1 \/ PickC2 \/ Evaluate
+\* the compositions of three shapes are a model run of their own (memory)
+NextThorough3 == PickC3 \/ Evaluate
 \* C04: the same shapes with the wrong values
 \* an object that moves the origin, followed by an explicitly positioned sibling
 PickC2C04 == \E a \in {sh \in Inner(1) : sh[1].dop.k = "mux"}, bp \in {1, 3, 4} :
                  Pick(D(<<SID>> \o a \o <<Value("p2", bp, -1, SimpleA(U8, {IntV(5), IntV(200), IntV(256), Bad("str")}))>>))
 NextC04Quick == \/ PickA({1, 3, 4, 7, 8, 16, 32, 64}, {-1, 3}, {-1}) \/ PickA2 \/ PickB \/ PickC1 \/ PickC2C04 \/ Evaluate
-NextC04Thorough == \/ PickA({1, 2, 3, 4, 5, 6, 7, 8, 12, 16, 31, 32, 33, 63, 64}, {-1, 0, 3, 7}, {-1, 2}) \/ PickA2 \/ PickB \/ PickC1 \/ PickC2 \/ Evaluate
+NextC04Thorough == \/ PickA({1, 2, 3, 4, 5, 6, 7, 8, 12, 16, 31, 32, 33, 63, 64}, {-1, 0, 3, 7}, {-1, 2}) \/ PickA2 \/ PickB \/ PickC1 \/ PickC2C04 \/ Evaluate
 SpecC04Quick == Init /\ [][NextC04Quick]_vars
 SpecC04Thorough == Init /\ [][NextC04Thorough]_vars
 SpecQuick == Init /\ [][NextQuick]_vars
 SpecThorough == Init /\ [][NextThorough]_vars
+SpecThorough3 == Init /\ [][NextThorough3]_vars
 
 \* debugging aid: print the cases that break a design-level invariant
 BadCase(c) == ~c.rt \/ (~c.err /\ ~c.ovl /\ ~HasDem(desc.ps) /\ c.dhi # Len(c.pdu)) \/ ~c.clean
